@@ -264,13 +264,13 @@ pub trait SurfaceMut: Surface {
     /// Set value at row and column
     fn set(&mut self, pos: Position, item: Self::Item) -> Self::Item {
         let shape = self.shape();
-        debug_assert!(
+        assert!(
             pos.row < shape.height,
             "row {} is out of bound (height {})",
             pos.row,
             shape.height
         );
-        debug_assert!(
+        assert!(
             pos.col < shape.width,
             "column {} is out of bound (width {})",
             pos.col,
